@@ -211,7 +211,8 @@ def to_desc(s, problems):
             problems.append('%s: step filter classification %r not understood' % (where, s['phase_cls']))
             return None
         d['ph'] = {'on': True, 'eq0': f[0] == 'true', 'op': f[1], 'c': int(f[2]), 'anchor': f[3]}
-    elif s.get('phase'):
+    elif s.get('phase') and not (s.get('table') == 'metrics_15s' and all('timestamp_ns' in t for t in s['phase'])):
+        # (the downsample planner's filter on metrics_15s is another mechanism: PromDown.tla, extra check X08)
         problems.append('%s: step filter %s without classification' % (where, s['phase'][:1]))
         return None
     if s['has_type']:
